@@ -233,6 +233,58 @@ CLAIMED["C16"] = {
     "design_ref": "5 (C16)",
 }
 
+CLAIMED["C01"] = {
+    "text": "Every panic site of the library pipeline is an explicit value in the model and shown unreachable: Lean theorems "
+            "endorsement_never_panics (no bounds().expect on an empty span, for every set of cells: spans, re-assembled "
+            "contact spans and catalogue leftovers are handled), escape_line_slices_in_range, catalogue_initialises (the "
+            "statics' asserts, by kernel evaluation over the regenerated drawings), table_polygons_nonempty, "
+            "merge_loops_terminate (every greedy loop reaches its fixpoint within length+1 passes; fuel adequacy proved), "
+            "conversion_total (the whole model conversion returns a document for every input, environment and configuration). "
+            "All model functions are total (structural or fuel recursion checked by the kernel). Byte-level end-to-end "
+            "correspondence on hostile inputs; harness: catch_unwind over hostile families x five entry points x extreme "
+            "scales, time budget, size sweep with fitted growth exponent.",
+    "note": "Partial for what no model can exhibit: wall-clock time, native stack depth, allocator aborts, Rust's "
+            "sort-consistency panic, f32 NaN in util::ord; the endorse.rs expect(line/arc) sites are pattern matches in the "
+            "model (unreachability argued in DESIGN.md, not a theorem).",
+    "technique": "Lean 4 proof (no-panic and termination theorems over the executable model) + byte-level correspondence on hostile inputs + panic/timeout harness",
+    "design_ref": "5 (C01)",
+}
+CLAIMED["C07"] = {
+    "text": "Lean theorem fragment_buffer_order_independent: the one HashMap walk of the pipeline (visiting order is an explicit "
+            "argument of the model) gives the same fragment buffer for every order (insertion of distinct cells into the "
+            "ordered buffer commutes); the model conversion has no state argument, so it is a function of the input alone. "
+            "Harness on the implementation: N fresh processes (independent hash seeds), a warm process under shuffled "
+            "histories incl. shifted copies of the inputs, 2..16 threads racing on the first table-initialising calls in "
+            "fresh processes; all outputs compared byte for byte; byte-level correspondence with the model.",
+    "note": "Partial for thread interleavings inside once_cell (runtime); statics are pure functions of the regenerated "
+            "tables in the model.",
+    "technique": "Lean 4 proof (order independence of the fragment buffer) + byte-level correspondence + multi-process / history / racing-thread harness",
+    "design_ref": "5 (C07)",
+}
+CLAIMED["C19"] = {
+    "text": "Lean theorems about cliMain/cliBuild (model of main.rs with clap, number parsing, file system and library as "
+            "parameters): every run is either a clean failure (non-zero status, diagnostic, nothing written, nothing on stdout) "
+            "or delivers exactly the library's document (stdout + newline, or verbatim in the -o file with empty stdout); exit "
+            "status zero iff delivered; --scale multiplies the default; defaults match the regenerated Settings::default; batch "
+            "mode: status zero with one document per file iff every file could be converted and written. Correspondence: the "
+            "built binary (from a scratch copy of the working tree) vs the model on generated argument vectors; oracle: "
+            "binary vs library called in process, error cases, build over random directories.",
+    "note": "Partial by nature: clap parsing, process exit, file-system atomicity, closed stdout are runtime.",
+    "technique": "Lean 4 proof over a shell model + differential testing of the built binary against the model and the library",
+    "design_ref": "5 (C19)",
+}
+CLAIMED["C20"] = {
+    "text": "Lean theorems about handle/serve (stateless model of the axum handler): POST of UTF-8 within the limit -> 200 with "
+            "the library's conversion, invalid UTF-8 -> 400, GET -> package name and version (regenerated from Cargo.toml), "
+            "every request answered with one of the named statuses, answers independent of history and of request order, a "
+            "hostile prefix changes nothing. Correspondence/oracle on the built server (scratch copy of the working tree): "
+            "random request sequences incl. malformed requests, 2 MiB+ body (413), other methods/paths, sequentially and "
+            "from 16 concurrent clients, liveness probe after hostile requests, bodies compared with the library in process.",
+    "note": "Partial: axum routing/limits, connection handling, tokio scheduling and panic isolation are runtime.",
+    "technique": "Lean 4 proof over a stateless handler model + live differential testing of the built server",
+    "design_ref": "5 (C20)",
+}
+
 NOT_YET = {
 }
 
